@@ -74,6 +74,13 @@ CLAIMED = {
             "MIR of each, are identical in {} / default+decode (quick) and in all four buildable feature sets "
             "(thorough); gates are entered only under the config flags verification forces off or that select the "
             "parallel mode. Dependency feature unification is trusted.", "4/C20"),
+    "C19": ("ATTR: dataflow over the serde-derive generated Serialize/Deserialize/Visitor MIR bodies (absent-field "
+            "arms, key tables, tag strings) + DEFAULTS: Default::default aggregates vs the constants the docs cite",
+            "Narrow: for every field of the 8 config types an absent key takes the container default (or an equal "
+            "field default), missing_field errors exist only for the one undocumented required field, Serialize and "
+            "Deserialize agree on key->field and tag->variant and serialise every field unconditionally, and "
+            "Default::default stores exactly the documented constants. The toml crate's own behaviour is not "
+            "decided.", "4/C19"),
 }
 
 NA = {
